@@ -96,6 +96,220 @@ theorem C12_step (c : Cfg) (t : TestDef) (s : RS) (op : Op) (hr : Running s) (ho
       tallyEvs_append, tallyEvs]
     omega
 
+/-! ### lift to whole tests and test sequences -/
+
+/-- the runner's counters agree with what the observable events say -/
+def Agree (s : RS) : Prop := tallyState s = tallyEvs s.evs
+
+theorem tallyEvs_hooks (evs : List REv) (hooks : List REv) (h : ∀ e ∈ hooks, isHook e = true) :
+    tallyEvs (evs ++ hooks) = tallyEvs evs := by
+  rw [tallyEvs_append, tallyEvs_noise hooks (by
+    intro e he
+    have := h e he
+    constructor
+    · intro t b k hk; subst hk; simp [isHook] at this
+    · intro t hk; subst hk; simp [isHook] at this)]
+  simp [add3]
+
+theorem agree_emit (s : RS) (e : REv) (h : Agree s)
+    (hn : (∀ t b k, e ≠ .report t b k) ∧ (∀ t, e ≠ .skipped t)) : Agree (s.emit e) := by
+  unfold Agree at *
+  show tallyState s = tallyEvs (s.evs ++ [e])
+  rw [tallyEvs_append, tallyEvs_noise [e] (by intro x hx; simp at hx; subst hx; exact hn), h]
+  simp [add3]
+
+theorem agree_startTest (c : Cfg) (t : TestDef) (s : RS) (h : Agree s) : Agree (startTest c t s) := by
+  unfold Agree at *
+  have e1 : tallyState (startTest c t s) = tallyState s := by
+    simp [startTest, setUpStreams, callHooksUp, tallyState]
+  have e2 : (startTest c t s).evs = s.evs ++ c.hooksUp.map (fun l => REv.hookSetUp l (!s.captured)) := by
+    simp [startTest, setUpStreams, callHooksUp]
+  rw [e1, e2, tallyEvs_hooks _ _ (by intro e he; obtain ⟨l, _, rfl⟩ := List.mem_map.1 he; rfl)]
+  exact h
+
+theorem agree_skipFallback (c : Cfg) (t : TestDef) (s : RS) (h : Agree s) : Agree (skipFallback c t s) := by
+  unfold Agree at *
+  have e1 : tallyState (skipFallback c t s) = tallyState s := by
+    simp [skipFallback, callHooksUp, tallyState]
+  have e2 : (skipFallback c t s).evs = s.evs ++ c.hooksUp.map (fun l => REv.hookSetUp l (!s.captured)) := by
+    simp [skipFallback, callHooksUp]
+  rw [e1, e2, tallyEvs_hooks _ _ (by intro e he; obtain ⟨l, _, rfl⟩ := List.mem_map.1 he; rfl)]
+  exact h
+
+theorem agree_noteSkip (t : Nat) (s : RS) (h : Agree s) : Agree (noteSkip t s) := by
+  unfold Agree at *
+  have e1 : tallyState (noteSkip t s) = add3 (tallyState s) (0, 0, 1) := by
+    simp [noteSkip, RS.emit, tallyState, add3]
+  have e2 : (noteSkip t s).evs = s.evs ++ [.skipped t] := rfl
+  rw [e1, e2, tallyEvs_append, h]
+  simp [tallyEvs, add3]
+
+theorem agree_stopTest (c : Cfg) (s : RS) (h : Agree s) : Agree (stopTest c s) := by
+  unfold Agree at *
+  have e1 : tallyState (stopTest c s) = tallyState s := by
+    simp [stopTest, callHooksDown, restoreStreams, tallyState]
+  have e2 : (stopTest c s).evs = s.evs ++ c.hooksDown.map (fun l => REv.hookTearDown l (!(restoreStreams c s).1.captured)) := by
+    simp [stopTest, callHooksDown, restoreStreams]
+  rw [e1, e2, tallyEvs_hooks _ _ (by intro e he; obtain ⟨l, _, rfl⟩ := List.mem_map.1 he; rfl)]
+  exact h
+
+theorem agree_foldl (c : Cfg) (t : TestDef) : ∀ (ops : List Op) (s : RS), Running s →
+    (∀ op ∈ ops, Mid op ∨ Final op) → Agree s → Agree (ops.foldl (step c t) s)
+  | [], _, _, _, h => h
+  | op :: ops, s, hr, hops, h => by
+    simp only [List.foldl_cons]
+    have hop := hops op (by simp)
+    obtain ⟨h1, h2⟩ := C12_step c t s op hr hop
+    have ha : Agree (step c t s op) := by
+      unfold Agree at *
+      rw [h1, h2, h]
+    exact agree_foldl c t ops _ (hr.of_ext (ext_step_mid c t s op hr hop)) (fun o ho => hops o (by simp [ho])) ha
+
+/-- one whole test keeps the counters and the events in agreement -/
+theorem agree_runTest (c : Cfg) (t : TestDef) (s : RS) (hb : Between s) (h : Agree s) : Agree (runTest c s t) := by
+  unfold runTest
+  have hb0 : Between (s.emit (.tstart t.id)) := ⟨hb.aborted, hb.hasTestState, hb.captured⟩
+  have h0 : Agree (s.emit (.tstart t.id)) :=
+    agree_emit s _ h ⟨(by intro _ _ _ hh; cases hh), (by intro _ hh; cases hh)⟩
+  apply agree_emit _ _ _ ⟨(by intro _ _ _ hh; cases hh), (by intro _ hh; cases hh)⟩
+  cases hd : t.decoSkip
+  · obtain ⟨ops, tail, hrun, hops, htail⟩ := run_shape' t hd
+    rw [hrun, List.foldl_cons, List.foldl_append, List.foldl_cons]
+    have e1 : step c t (s.emit (.tstart t.id)) .startTest = startTest c t (s.emit (.tstart t.id)) := by
+      simp [step, hb0.aborted]
+    rw [e1]
+    obtain ⟨hr1, _, _, _⟩ := startTest_spec c t _ hb0
+    have h1 := agree_startTest c t _ h0
+    have h2 := agree_foldl c t ops _ hr1 hops h1
+    have hr2 := hr1.of_ext (ext_foldl_mid c t ops _ hr1 hops)
+    have e2 : step c t (ops.foldl (step c t) (startTest c t (s.emit (.tstart t.id)))) .stopTest
+        = stopTest c (ops.foldl (step c t) (startTest c t (s.emit (.tstart t.id)))) := by
+      simp [step, hr2.aborted]
+    rw [e2]
+    have h3 := agree_stopTest c _ h2
+    rcases htail with rfl | rfl
+    · exact h3
+    · simp only [List.foldl_cons, List.foldl_nil]
+      have : Agree (step c t (stopTest c (ops.foldl (step c t) (startTest c t (s.emit (.tstart t.id))))) .raiseInterrupt) := by
+        unfold step
+        split
+        · exact h3
+        · exact h3
+      exact this
+  · rw [run_decoSkip t hd]
+    simp only [List.foldl_cons, List.foldl_nil]
+    have e1 : step c t (s.emit (.tstart t.id)) .addSkip = noteSkip t.id (skipFallback c t (s.emit (.tstart t.id))) := by
+      simp [step, hb0.aborted, hb0.hasTestState]
+    rw [e1]
+    obtain ⟨hr1, _, _, _⟩ := skipFallback_spec c t _ hb0
+    have hr2 := hr1.of_ext (ext_noteSkip t.id (skipFallback c t (s.emit (.tstart t.id))))
+    have e2 : step c t (noteSkip t.id (skipFallback c t (s.emit (.tstart t.id)))) .stopTest
+        = stopTest c (noteSkip t.id (skipFallback c t (s.emit (.tstart t.id)))) := by
+      simp [step, hr2.aborted]
+    rw [e2]
+    exact agree_stopTest c _ (agree_noteSkip _ _ (agree_skipFallback c t _ h0))
+
+theorem agree_runTests (c : Cfg) : ∀ (ts : List TestDef) (s : RS), Between s → Agree s → Agree (runTests c ts s)
+  | [], _, _, h => h
+  | t :: ts, s, hb, h => by
+    unfold runTests
+    split
+    · exact h
+    · obtain ⟨_, _, _, hb'⟩ := runTest_bracket c t s hb
+      exact agree_runTests c ts _ hb' (agree_runTest c t s hb h)
+
+/-- **C12_counts** — for every sequence of tests with every outcome script (several events from one
+test, failing sub-tests, unexpected successes, skips of every kind), with and without `--buffer` and
+`-x`: when the test loop of a layer ends, the `TestResult`'s failure, error and skip counters equal
+the numbers of failure reports, error reports and skips that actually happened. -/
+theorem C12_counts (c : Cfg) (ts : List TestDef) :
+    tallyState (runTests c ts {}) = tallyEvs (runTests c ts {}).evs :=
+  agree_runTests c ts {} between_init rfl
+
+/-! ### tests run -/
+
+/-- the tests the loop actually starts (all of them unless `-x` fired or an interrupt propagates) -/
+def startedTests (c : Cfg) : List TestDef → RS → List TestDef
+  | [], _ => []
+  | t :: ts, s => if s.shouldStop || s.aborted || s.interrupted then [] else t :: startedTests c ts (runTest c s t)
+
+theorem step_testsRun_mid (c : Cfg) (t : TestDef) (s : RS) (op : Op) (hr : Running s) (hop : Mid op ∨ Final op) :
+    (step c t s op).testsRun = s.testsRun := by
+  unfold step
+  simp only [hr.aborted, Bool.false_eq_true, if_false]
+  cases op with
+  | startTest => simp [Mid, Final] at hop
+  | stopTest => simp [Mid, Final] at hop
+  | raiseInterrupt => simp [Mid, Final] at hop
+  | addSubTest e =>
+    cases e <;> simp [bad, stopIf, record, restoreStreams, RS.emit, hr.hasStartTime]
+  | _ =>
+    simp [writeToks, bad, stopIf, record, restoreStreams, noteSkip, RS.emit, hr.hasStartTime, hr.hasTestState]
+
+theorem foldl_testsRun (c : Cfg) (t : TestDef) : ∀ (ops : List Op) (s : RS), Running s →
+    (∀ op ∈ ops, Mid op ∨ Final op) → (ops.foldl (step c t) s).testsRun = s.testsRun
+  | [], _, _, _ => rfl
+  | op :: ops, s, hr, hops => by
+    simp only [List.foldl_cons]
+    have hop := hops op (by simp)
+    rw [foldl_testsRun c t ops _ (hr.of_ext (ext_step_mid c t s op hr hop)) (fun o ho => hops o (by simp [ho])),
+      step_testsRun_mid c t s op hr hop]
+
+/-- one test adds exactly its `countTestCases()` to `testsRun`, whatever its outcome -/
+theorem runTest_testsRun (c : Cfg) (t : TestDef) (s : RS) (hb : Between s) :
+    (runTest c s t).testsRun = s.testsRun + t.count := by
+  unfold runTest
+  have hb0 : Between (s.emit (.tstart t.id)) := ⟨hb.aborted, hb.hasTestState, hb.captured⟩
+  show (List.foldl (step c t) (s.emit (.tstart t.id)) (run t)).testsRun = s.testsRun + t.count
+  cases hd : t.decoSkip
+  · obtain ⟨ops, tail, hrun, hops, htail⟩ := run_shape' t hd
+    rw [hrun, List.foldl_cons, List.foldl_append, List.foldl_cons]
+    have e1 : step c t (s.emit (.tstart t.id)) .startTest = startTest c t (s.emit (.tstart t.id)) := by
+      simp [step, hb0.aborted]
+    rw [e1]
+    obtain ⟨hr1, _, _, _⟩ := startTest_spec c t _ hb0
+    have hr2 := hr1.of_ext (ext_foldl_mid c t ops _ hr1 hops)
+    have e2 : step c t (ops.foldl (step c t) (startTest c t (s.emit (.tstart t.id)))) .stopTest
+        = stopTest c (ops.foldl (step c t) (startTest c t (s.emit (.tstart t.id)))) := by
+      simp [step, hr2.aborted]
+    rw [e2]
+    have k1 : (startTest c t (s.emit (.tstart t.id))).testsRun = s.testsRun + t.count := by
+      simp [startTest, setUpStreams, callHooksUp, RS.emit]
+    have k2 := foldl_testsRun c t ops _ hr1 hops
+    have k3 : ∀ x : RS, (stopTest c x).testsRun = x.testsRun := by
+      intro x; simp [stopTest, callHooksDown, restoreStreams]
+    rcases htail with rfl | rfl
+    · simp only [List.foldl_nil]; rw [k3, k2, k1]
+    · simp only [List.foldl_cons, List.foldl_nil]
+      have : ∀ x : RS, (step c t x .raiseInterrupt).testsRun = x.testsRun := by
+        intro x; unfold step; split <;> rfl
+      rw [this, k3, k2, k1]
+  · rw [run_decoSkip t hd]
+    simp only [List.foldl_cons, List.foldl_nil]
+    have e1 : step c t (s.emit (.tstart t.id)) .addSkip = noteSkip t.id (skipFallback c t (s.emit (.tstart t.id))) := by
+      simp [step, hb0.aborted, hb0.hasTestState]
+    rw [e1]
+    obtain ⟨hr1, _, _, _⟩ := skipFallback_spec c t _ hb0
+    have hr2 := hr1.of_ext (ext_noteSkip t.id (skipFallback c t (s.emit (.tstart t.id))))
+    have e2 : step c t (noteSkip t.id (skipFallback c t (s.emit (.tstart t.id)))) .stopTest
+        = stopTest c (noteSkip t.id (skipFallback c t (s.emit (.tstart t.id)))) := by
+      simp [step, hr2.aborted]
+    rw [e2]
+    simp [stopTest, callHooksDown, restoreStreams, noteSkip, skipFallback, callHooksUp, RS.emit]
+
+/-- **C12_tests_run** — `testsRun` is the sum of `countTestCases()` over exactly the tests that
+were started (decorator-skipped ones included, as unittest reports them), no more, no less. -/
+theorem C12_tests_run (c : Cfg) : ∀ (ts : List TestDef) (s : RS), Between s →
+    (runTests c ts s).testsRun = s.testsRun + ((startedTests c ts s).map (·.count)).sum
+  | [], s, _ => by simp [runTests, startedTests]
+  | t :: ts, s, hb => by
+    unfold runTests startedTests
+    split
+    · simp
+    · obtain ⟨_, _, _, hb'⟩ := runTest_bracket c t s hb
+      rw [C12_tests_run c ts _ hb', runTest_testsRun c t s hb]
+      simp [Nat.add_assoc]
+
 end Ztr.Result
 
 namespace Ztr.Runner
@@ -130,5 +344,32 @@ theorem C12_summary (w : World) (o : Opts) (l : Nat) (tests : List Proto.TestDef
   split
   · simp [PS.emit, r]
   · apply hmono; simp [PS.emit, r]
+
+/-- **C12_summary_truth** — the failure / error / skip numbers printed in a layer's summary equal the
+numbers of failure reports, error reports (plus the import errors, as the code prints them) and skips
+among the events of that iteration: for every world, outcome assignment and option set. -/
+theorem C12_summary_truth (w : World) (o : Opts) (l : Nat) (tests : List Proto.TestDef) (n : Nat) (s : PS)
+    (hint : (runTests (resultCfg w o l) tests {}).interrupted = false) :
+    let r := runTests (resultCfg w o l) tests {}
+    Ev.summary r.testsRun (tallyEvs r.evs).1 ((tallyEvs r.evs).2.1 + w.importErrors) (tallyEvs r.evs).2.2
+      ∈ (runIterations w o l tests (n + 1) s).trace ∧
+    r.testsRun = ((startedTests (resultCfg w o l) tests {}).map (·.count)).sum := by
+  intro r
+  have hc := C12_counts (resultCfg w o l) tests
+  have hok : r.aborted = false :=
+    (runTests_between (resultCfg w o l) tests {} between_init (by intro e he; simp at he)).1.aborted
+  have hs := C12_summary w o l tests n s hok hint
+  have e1 : (tallyEvs r.evs).1 = r.failures.length + r.unexpected.length := by
+    show (tallyEvs (runTests (resultCfg w o l) tests {}).evs).1 = _
+    rw [← hc]; rfl
+  have e2 : (tallyEvs r.evs).2.1 = r.errors.length := by
+    show (tallyEvs (runTests (resultCfg w o l) tests {}).evs).2.1 = _
+    rw [← hc]; rfl
+  have e3 : (tallyEvs r.evs).2.2 = r.skipped.length := by
+    show (tallyEvs (runTests (resultCfg w o l) tests {}).evs).2.2 = _
+    rw [← hc]; rfl
+  refine ⟨by rw [e1, e2, e3]; exact hs, ?_⟩
+  have := C12_tests_run (resultCfg w o l) tests {} between_init
+  simpa using this
 
 end Ztr.Runner
